@@ -12,8 +12,8 @@ ENGINE_INVARIANTS = ['Correct', 'ErrCorrect', 'StreamPrefix', 'PullBound', 'Prot
 ENGINE_PROPERTIES = ['Prompt', 'SourcesUnchanged', 'OutGrows']
 
 
-def engine_cfg(path, queries, recsA, recsB='R_none', maxA=2, maxB=0, hdrmodes=(False,), breakpoints=(0,), emit=True, mut='', invariants=None, properties=None, cyclic=False, spec=None, constraints=()):
-    lines = (['SPECIFICATION ' + spec] if spec else ['INIT Init', 'NEXT Next']) + ['CONSTANTS', '  Cyclic = %s' % ('TRUE' if cyclic else 'FALSE'),
+def engine_cfg(path, queries, recsA, recsB='R_none', maxA=2, maxB=0, hdrmodes=(False,), breakpoints=(0,), emit=True, mut='', invariants=None, properties=None, cyclic=False, spec=None, constraints=(), next_=None):
+    lines = (['SPECIFICATION ' + spec] if spec else ['INIT Init', 'NEXT %s' % (next_ or 'Next')]) + ['CONSTANTS', '  Cyclic = %s' % ('TRUE' if cyclic else 'FALSE'),
              '  Queries <- %s' % queries, '  RecsA <- %s' % recsA, '  RecsB <- %s' % recsB,
              '  MaxA = %d' % maxA, '  MaxB = %d' % maxB,
              '  HdrModes = {%s}' % ', '.join('TRUE' if h else 'FALSE' for h in hdrmodes),
@@ -160,11 +160,11 @@ def validate_engine_traces(run, traces, label, cases_for_replay=None):
 
 
 def run_family(run, label, queries, recsA, recsB='R_none', maxA=2, maxB=0, hdrmodes=(False,), breakpoints=(0,), opts=None,
-               invariants=None, timeout=7200):
+               invariants=None, timeout=7200, simulate=None):
     opts = dict(opts or {})
     opts.setdefault('seed', run.seed)
     d = tlcrun.new_scratch('eng')
-    cfg = engine_cfg(os.path.join(d, label + '.cfg'), queries, recsA, recsB, maxA, maxB, hdrmodes, breakpoints, invariants=invariants)
+    cfg = engine_cfg(os.path.join(d, label + '.cfg'), queries if not simulate else 'Q_C13', recsA, recsB, maxA, maxB, hdrmodes, breakpoints, invariants=invariants, next_='SimNext' if simulate else None)
     rp = Replayer(run, opts)
     keep = {}
 
@@ -173,8 +173,12 @@ def run_family(run, label, queries, recsA, recsB='R_none', maxA=2, maxB=0, hdrmo
         if len(keep) < 50000:
             keep[rp.tid] = case
 
-    res = tlcrun.run_tlc('MC_Engine', cfg, coverage=(run.tier != 'quick'), timeout=timeout, heap='24g', case_sink=sink)
-    run.add_tlc('MC_Engine:' + label, res)
+    if simulate:
+        # sampling of a product too large to enumerate: random behaviours (= random cases), seeded by VERIF_SEED
+        res = tlcrun.run_tlc('MC_EngineSim', cfg, timeout=timeout, heap='24g', case_sink=sink, simulate=simulate, depth=200, seed=run.seed, workers=8)
+    else:
+        res = tlcrun.run_tlc('MC_Engine', cfg, coverage=(run.tier != 'quick'), timeout=timeout, heap='24g', case_sink=sink)
+    run.add_tlc('MC_Engine:' + label + (':simulate' if simulate else ''), res)
     traces = rp.finish()
     if rp.ncases == 0:
         core.machinery_failure('no cases emitted for ' + label)
